@@ -43,6 +43,9 @@ def main() -> int:
     ctx.res.sets.setdefault("library_lines_reached", set()).update(linereach.stop())
     ctx.res.count("advisory/library_log_records_formatted", logcfg.RECORDS["n"])
     ctx.res.count(f"interpreter/shards-with-optimize={sys.flags.optimize}")
+    import warnings as _w
+
+    ctx.res.count("interpreter/shards-with-DeprecationWarning-as-error=" + str(any(f[0] == "error" and f[2] is DeprecationWarning for f in _w.filters)))
     rot = sys.modules.get("vf.sim.rotation")
     for k, n in (rot.VALUE_COUNTS.items() if rot is not None else ()):
         ctx.res.count(f"harness-rotation/{k}", n)
